@@ -1118,9 +1118,12 @@ impl VM {
                 decorate_call!(pos => vm.run(env))?;
                 if let Some(ptr) = result_ptr {
                     vm.ops.jump(*ptr)?;
-                    vm.run(env)?;
-                    let (result_val, result_pos) = vm.pop()?;
-                    self.push(result_val, result_pos)?;
+                    // The out expression is part of the instantiation: an error in it
+                    // lists this call site, and its value stands where the module was
+                    // instantiated (not where the out expression was written).
+                    decorate_call!(pos => vm.run(env))?;
+                    let (result_val, _) = vm.pop()?;
+                    self.push(result_val, pos)?;
                 } else {
                     self.push(Rc::new(vm.symbols_to_tuple(false)), pos)?;
                 }
